@@ -41,9 +41,34 @@ Definition lit_f64_f32 (tok : str) : option f32 :=
   | None => None
   | Some (neg, n, d) => Some (f64_to_f32 (rne F64 neg n d))
   end.
+(* a literal with an optional decimal exponent:  mantissa [eE] [+-]? digits+ ;  a token without e / E is `literal` *)
+Definition is_e (c : Z) : bool := (c =? 101) || (c =? 69).
+Fixpoint split_e (l : str) (acc : str) : str * option str :=
+  match l with
+  | [] => (rev acc, None)
+  | c :: r => if is_e c then (rev acc, Some r) else split_e r (c :: acc)
+  end.
+Definition exp_value (l : str) : option Z :=
+  let '(neg, body) := match l with
+                      | c :: r => if c =? cMINUS then (true, r) else if c =? cPLUS then (false, r) else (false, l)
+                      | [] => (false, [])
+                      end in
+  if forallb is_digit body && negb (length body =? 0)%nat
+  then Some (let '(v, _, _) := dec_digits body 0 0 false false in if neg then - v else v)
+  else None.
+Definition literal_e (tok : str) : option (bool * Z * Z) :=
+  match split_e tok [] with
+  | (_, None) => literal tok
+  | (mant, Some ex) =>
+      match literal mant, exp_value ex with
+      | Some (neg, n, d), Some x => if 0 <=? x then Some (neg, n * 10 ^ x, d) else Some (neg, n, d * 10 ^ (- x))
+      | _, _ => None
+      end
+  end.
+
 (* strconv.ParseFloat(tok, 32) as used by fmt.Fscanf("%f") into a float32 *)
 Definition lit_f32 (tok : str) : option f32 :=
-  match literal tok with
+  match literal_e tok with
   | None => None
   | Some (neg, n, d) => Some (rne F32 neg n d)
   end.
@@ -189,19 +214,32 @@ Definition set_path_data (tr : option aff3) (d : str) (adj : Z) : list call * pd
 Fixpoint md_skip_sp (l : str) : str :=
   match l with c :: r => if c =? cSP then md_skip_sp r else l | [] => [] end.
 
-(* the token fmt.Fscanf("%f") reads, within the dialect: [+-]?digits[.digits]  (exponents are outside the claim) *)
+(* the token fmt.Fscanf("%f") reads (fmt's floatToken for a decimal mantissa): [+-]?digits[.digits]([eEpP][+-]?digits)?
+   (a p / P exponent is read into the token and then rejected by ParseFloat) *)
 Fixpoint md_digits (l : str) (acc : str) : str * str :=
   match l with
   | c :: r => if is_digit c then md_digits r (c :: acc) else (rev acc, l)
   | [] => (rev acc, [])
   end.
 
-Definition md_token (l : str) : str * str :=
+Definition md_mantissa (l : str) : str * str :=
   let '(sg, l1) := match l with c :: r => if (c =? cPLUS) || (c =? cMINUS) then ([c], r) else ([], l) | [] => ([], []) end in
   let '(ip, l2) := md_digits l1 [] in
   match l2 with
   | c :: r => if c =? cDOT then let '(fp, l3) := md_digits r [] in (sg ++ ip ++ [cDOT] ++ fp, l3) else (sg ++ ip, l2)
   | [] => (sg ++ ip, [])
+  end.
+Definition is_expo (c : Z) : bool := is_e c || (c =? 112) || (c =? 80).
+Definition md_token (l : str) : str * str :=
+  let '(m, l1) := md_mantissa l in
+  match l1 with
+  | c :: r =>
+      if is_expo c then
+        let '(sg, l2) := match r with d :: r' => if (d =? cPLUS) || (d =? cMINUS) then ([d], r') else ([], r) | [] => ([], []) end in
+        let '(ds, l3) := md_digits l2 [] in
+        (m ++ [c] ++ sg ++ ds, l3)
+      else (m, l1)
+  | [] => (m, [])
   end.
 
 (* scan: n numbers into args (a failed Fscanf leaves the previous value) *)
